@@ -770,9 +770,14 @@ def r5(ctx):
                 key=ps.full + ' | scale')
     # Reactor: axial bounds come back to metres
     ab = repo.func('reactor', 'Reactor._setup_axial_region_bnds')
-    h = find_all("list(self.power['user'][ai][1]['zfm'] * 0.01)", ab.node)
-    ctx.require(bool(h), 'C03.R5', ab, h[0][0] if h else ab.node,
-                'power mesh bounds converted cm -> m for the axial mesh',
+    # (on values, rules/_c05_r3.py: every mesh point of every user power
+    # entry is in the stored boundary set with the factor 0.01)
+    from . import _c05_r3
+    ok, why = _c05_r3.user_mesh_scale(repo)
+    h = find_all("self.power['user'][Q_i][1]['zfm']", ab.node)
+    ctx.require(ok, 'C03.R5', ab, h[0][0] if h else ab.node,
+                'power mesh bounds converted cm -> m for the axial mesh'
+                + (': ' + why if why else ''),
                 key=ab.full + ' | zfm scale')
 
 
